@@ -1,3 +1,4 @@
+pub mod c09;
 pub mod c12;
 pub mod c17;
 pub mod c18;
@@ -12,6 +13,7 @@ pub fn datau_json(d: &vcore::rterm::RData) -> serde_json::Value {
 
 pub fn dispatch(prop: &str, tier: Tier, replay: Option<String>) -> i32 {
     match prop {
+        "C09" => c09::run(tier, replay),
         "C12" => c12::run(tier, replay),
         "C17" => c17::run(tier, replay),
         "C18" => c18::run(tier, replay),
